@@ -95,6 +95,9 @@ def run(ctx):
     # (2c) the last subscriber of an emitter-less type closes while another Subscribe is in flight
     lc = goenv.run_harness(ctx, PKG, "^TestVerifC15SubscribeVsLastClose$", timeout=300)
     div += classify_mismatches(ctx, lc, "subscribe-vs-last-close")
+    # (2d) a wildcard Subscribe (announced, not yet attached) overlapped by the Close of another wildcard subscription
+    wj = goenv.run_harness(ctx, PKG, "^TestVerifC15WildcardJoinVsLeave$", timeout=300)
+    div += classify_mismatches(ctx, wj, "wildcard-join-vs-leave")
     if design_deadlock and not dl["mismatches"]:
         ctx.notes.append("instance D deadlocks in the model but the real bus did not reproduce it in 5 gated attempts")
 
